@@ -225,7 +225,20 @@ static MPT_INTERFACE(metatype) *k_create(int kind, vf_rng *r)
 		return mt;
 	case KIterString: vf_at("mpt_iterator_string"); return mpt_iterator_string("1 2 3 four", 0);
 	case KReply: vf_at("mpt_reply_deferrable"); return mpt_reply_deferrable(vf_below(r, 12), send_cb, &sent_count);
-	case KRawData: vf_at("mpt_rawdata_create"); return mpt_rawdata_create(-1);
+	case KRawData: {
+		/* plot data holding stage buffers: the last unref has to release them (LeakSanitizer) */
+		const MPT_STRUCT(named_traits) *nt = mpt_rawdata_type_traits();
+		MPT_INTERFACE(rawdata) *rd = 0;
+		vf_at("mpt_rawdata_create");
+		if (!(mt = mpt_rawdata_create(-1))) return 0;
+		if (nt && mt->_vptr->convertable.convert((MPT_INTERFACE(convertable) *) mt, nt->type, &rd) >= 0 && rd) {
+			double v[4] = { 1, 2, 3, 4 };
+			struct iovec vec = { v, sizeof(v) };
+			MPT_value_set(&val, MPT_type_toVector('d'), &vec);
+			vf_at("rawdata::modify");
+			if (rd->_vptr->modify(rd, vf_below(r, 3), &val, 0) >= 0) vf_count("meta:rawdata-filled", 1);
+		}
+		return mt; }
 	case KIterLinear: vf_at("mpt_iterator_create"); return mpt_iterator_create("lin(4 : 1 2)");
 	case KIterValues: vf_at("mpt_iterator_create"); return mpt_iterator_create("1 2 3 4.5");
 	case KIterPoly: {
